@@ -59,6 +59,38 @@ theorem newScalar_indep (v : Scalar) (fmt : Fmt) (b b' : Bool) (s s' : Scalar)
     cases b <;> cases b' <;> simp at h h'; rw [← h, ← h']
   all_goals (rw [h] at h'; cases h'; rfl)
 
+/-- **literal_text_kept.**  A new value given as TEXT that is a simple quoted Python string literal
+(`'abc'`, `"two words"`) or an integer look-alike (`0x1F`, `0o17`, `0b101`, `(1)`, `- 5`: an `int` for
+`ast.literal_eval`, a `ValueError` for `int()`) is stored AS THAT TEXT, quotation marks and all: in the
+DEFAULT format `make_new_node` yields the text for a plain and for an anchored source node alike (so by
+`set_eq_spec` every matched node and every alias holds it — the set is not refused), and `wrap_type`
+— the value of nodes created for a missing path — yields it too (C09: the created path resolves to
+the supplied value). -/
+theorem literal_text_kept (anchored : Bool) (s : Str)
+    (h : isQuotedLit s = true ∨ isIntLookalike s = true) :
+    newScalar anchored (.str s) .default = .ok (.str s) ∧ wrapType (.str s) = .ok (.str s) := by
+  have ht : eTypedValue s = .str := by
+    unfold eTypedValue
+    cases h with
+    | inl h => simp [h]
+    | inr h => simp [h]
+  simp [newScalar, wrapType, ht]
+
+-- the hypotheses are met by the texts the property module generates; neighbours are outside the classes
+example : isQuotedLit "'abc'".toList = true ∧ isQuotedLit "\"two words\"".toList = true ∧
+    isQuotedLit "''".toList = true ∧ isQuotedLit "it's".toList = false ∧ isQuotedLit "'a'b'".toList = false ∧
+    isQuotedLit "'a\\nb'".toList = false ∧ isQuotedLit "'".toList = false := by decide +kernel
+example : isIntLookalike "0x1F".toList = true ∧ isIntLookalike "-0o17".toList = true ∧
+    isIntLookalike "0b101".toList = true ∧ isIntLookalike "(1)".toList = true ∧
+    isIntLookalike "(-12)".toList = true ∧ isIntLookalike "- 5".toList = true ∧
+    isIntLookalike "31".toList = false ∧ isIntLookalike "0x".toList = false ∧
+    isIntLookalike "0b102".toList = false ∧ isIntLookalike "(1.5)".toList = false ∧
+    isIntLookalike "(01)".toList = false ∧ isIntLookalike "1_000".toList = false := by decide +kernel
+example : newScalar true (.str "0x1F".toList) .default = .ok (.str "0x1F".toList) ∧
+    newScalar false (.str "0x1F".toList) .int = .error valueError ∧
+    wrapType (.str "'abc'".toList) = .ok (.str "'abc'".toList) ∧
+    newScalar false (.str "31".toList) .default = .ok (.int 31) := by decide +kernel
+
 /-- a successful `set_value` means `make_new_node` succeeded for every matched node -/
 theorem setValue_ok_scalars (v : Scalar) (fmt : Fmt) (d' : Node) : ∀ (d : Node) (addrs : List Addr),
     MatchedScalars d addrs → ScalarAnchors d → setValue v fmt d addrs = .ok d' →
